@@ -404,6 +404,9 @@ def c15d(ctx, tu):
     rf = tu.find(A["report_forbidden_call"])
     for callee in rf:
         sp = [i for i, p in enumerate(callee.rec["params"]) if "basic_string" in p["t"] or p["t"].startswith("std::string")]
+        if not sp:
+            # the report function may take the call's parameter tuple and print it itself
+            sp = [i for i, p in enumerate(callee.rec["params"]) if "tuple<" in p["t"]]
         for cf, b, e in tu.callers().get(callee.id, ()):
             if not cf.is_lib:
                 continue
